@@ -170,6 +170,20 @@ class Prop:
                     hs = rng.sample(hs, len(hs) // 3)
                 for hist in hs:
                     yield dict(univ=EQ_UNIV, nodes=nodes, hist=hist)
+        #     same-length replacements (remove + add, move out + move in, sort) with a query before the first op only
+        for n in range(2, 5 if tier == "quick" else 6):
+            for si, shape in enumerate(H.forests(n)):
+                if n >= 4 and tier == "quick" and si % 3:
+                    continue
+                for typed in (False, True):
+                    nodes = B.shape_to_nodes(shape, lambda i, d, s: (i % len(EQ_UNIV), "ab"[(i + d) % 2] if typed else None, f"k{n - i}"))
+                    for hi, hist in enumerate(NH.replace_same_length(nodes, typed)):
+                        if n >= 3 and (hi + si) % 2:
+                            continue
+                        d = dict(univ=EQ_UNIV, nodes=nodes, hist=hist, probe=[0])
+                        if typed:
+                            d["typed"] = True
+                        yield d
         #     creation order different from pre-order (before=<node>/<index>/True inserts), no further history
         for _ in range(20 if tier == "quick" else 150):
             n = rng.randint(3, 14)
@@ -200,15 +214,18 @@ class Prop:
         try:
             if "hist" in desc:
                 early = []
+                pr = desc.get("probe", True)      # True: query before every op; [k, ...]: only before these steps; False: never
 
                 def probe(tree, U, objs, sh, errors, k):
                     # QUERY - mutate - query again: every query (node, pair, tree level) is asked before every op of the
                     # history as well, on the same tree object, and checked by the oracle each time
+                    if pr is not True and k not in pr:
+                        return      # no query between these two ops (a cache validated by a length only sees the same length)
                     f = NH.consistency(tree, objs, sh, errors) or self._observe(tree, U, desc, twin=False)[1]
                     if f and not early:
                         early.append(f"before step {k} of the history: {f}")
 
-                tree, U, objs, sh, errors = NH.build_hist(desc, probe if desc.get("probe", True) else None)
+                tree, U, objs, sh, errors = NH.build_hist(desc, probe if pr else None)
                 hist_fail = (early[0] if early else None) or NH.consistency(tree, objs, sh, errors)
             else:
                 tree, U = B.build(desc)
@@ -229,8 +246,21 @@ class Prop:
             d2["nodes"] = fix(desc["nodes"])
             desc = d2
             tree, U = B.build(desc)
+        # results handed out by queries are caller-owned: on ANOTHER tree of the same description (t0, built first) and
+        # on this tree, every returned list is mutated; then the whole battery is asked again: this tree against the
+        # model, t0 against the oracle (module-/class-level state shared by all trees would show on either)
+        pfail = None
+        if desc.get("poison", True):
+            if "hist" in desc:
+                t0, U0 = NH.build_hist(desc)[:2]
+            else:
+                t0, U0 = B.build(desc)
+            pfail = NH.poison_results(t0, bool(desc.get("typed"))) or NH.poison_results(tree, bool(desc.get("typed")))
         obs, fail, nodes, coq_in = self._observe(tree, U, desc, twin=True)
-        fail = hist_fail or fail
+        if desc.get("poison", True) and not pfail:
+            f0 = self._observe(t0, U0, desc, twin=False)[1]
+            pfail = f0 and f"after mutating the lists handed out by the queries of another tree: {f0}"
+        fail = hist_fail or pfail or (fail and (f"(after mutating the lists handed out by the queries) {fail}" if desc.get("poison", True) else fail))
         typed = bool(desc.get("typed"))
         return Case(desc=desc, coq_input=coq_in, impl_obs=obs, oracle_fail=fail,
                     nontrivial=len(nodes) >= 3 or bool(desc.get("hist")),
